@@ -118,7 +118,9 @@ class Report:
                 path = os.path.join(viol_dir, "%s-%s.json" % (self.prop, h))
                 json.dump(dict(v, property=self.prop), open(path, "w"), indent=1)
                 lines.append("VIOLATION property=%s replay=%s" % (self.prop, path))
-                lines.append("  rule %s: %s" % (v["rule"], v["what"]))
+                if n_viol > 15:
+                    continue            # the violation file has the details; keep the console readable
+                lines.append("  rule %s: %s" % (v["rule"], v["what"][:600]))
                 lines.append("  at %s in %s [%s]" % (v.get("where") or "?", v["function"], v["construct"]))
                 if v.get("detail"):
                     lines.append("  detail: %s" % (v["detail"] if isinstance(v["detail"], str) else json.dumps(v["detail"])[:600]))
